@@ -305,9 +305,11 @@ impl Pwhash {
 #[cfg(any(feature = "base64", all(doc, not(doctest))))]
 #[cfg_attr(all(feature = "nightly", doc), doc(cfg(feature = "base64")))]
 pub fn crypto_pwhash_str_verify(hashed_password: &str, password: &[u8]) -> Result<(), Error> {
-    let mut hash = [0u8; STR_HASHBYTES];
-
     let pwhash = Pwhash::parse_encoded_pwhash(hashed_password)?;
+
+    // recompute as many bytes as the encoded hash holds (not only the 32
+    // bytes crypto_pwhash_str itself produces)
+    let mut hash = vec![0u8; pwhash.pwhash.as_ref().map_or(0, |h| h.len())];
 
     argon2_hash(
         pwhash.t_cost.unwrap(),
